@@ -1,7 +1,9 @@
 (* C11 — calibration fitness is the declared figure of merit on the declared data.
    Only statements here; proofs live in Proofs/FitnessChecker.v and Proofs/FitnessSum.v.
    Gen_C11.src_checker is regenerated from pyxel/calibration/util.py on every run
-   (_check_out_fit_ranges, FitRange2D.check, FitRange3D.check, dispatch of check_fit_ranges). *)
+   (_check_out_fit_ranges, FitRange2D.check, FitRange3D.check, dispatch of check_fit_ranges);
+   Gen_C11.src_calls from the two calls of check_fit_ranges in ModelFittingDataTree.__init__
+   (pyxel/calibration/fitting_datatree.py): which sizes are passed as rows / cols / readout_times. *)
 From Coq Require Import ZArith QArith List Bool.
 From PyxelV Require Import Model.Fitness Proofs.FitnessChecker Proofs.FitnessSum.
 From PyxelGen Require Import Gen_C11.
@@ -11,6 +13,11 @@ Import ListNotations.
 Theorem C11_src_checker_is_coded : src_checker = coded_checker.
 Proof. vm_compute. reflexivity. Qed.
 Print Assumptions C11_src_checker_is_coded.
+
+(* the constructor validates the ranges against the size of the TARGET data read from file *)
+Theorem C11_src_calls_are_coded : src_calls = coded_calls.
+Proof. vm_compute. reflexivity. Qed.
+Print Assumptions C11_src_calls_are_coded.
 
 (* ------------------------------------------------------------------ range checker *)
 
@@ -58,6 +65,48 @@ Example C11_checker_partial_nonvacuous_reject :
   in_domain t o 3 4 (Some 3%Z) = true /\ anchored t o = true /\ spec_ok t o 3 4 (Some 3%Z) = false /\
   check src_checker (Some t) (Some o) 3 4 (Some 3%Z) = Reject.
 Proof. vm_compute. auto. Qed.
+
+(* ------------------------------------------------------------------ ranges exceeding the target *)
+
+(* whatever the result range, the geometry of the detector and the readout: if the constructor's
+   call of check_fit_ranges accepts a (well-formed) target range, that range lies inside the target
+   data read from file, in every dimension it names *)
+Theorem C11_ctor_rejects_exceeding : forall c sims,
+  wf_range (fc_trng c) = true ->
+  ctor_check src_checker src_calls c sims = Accept -> target_inside c = true.
+Proof. rewrite C11_src_checker_is_coded, C11_src_calls_are_coded. exact coded_ctor_inside. Qed.
+Print Assumptions C11_ctor_rejects_exceeding.
+
+(* ... so no problem object exists (nothing is optimised) for a target range exceeding the target *)
+Theorem C11_exceeding_never_optimised : forall c sims,
+  fc_bypass c = false -> wf_range (fc_trng c) = true ->
+  model_fit src_checker src_calls c sims <> OCtor -> target_inside c = true.
+Proof. rewrite C11_src_checker_is_coded, C11_src_calls_are_coded. exact coded_model_fit_inside. Qed.
+Print Assumptions C11_exceeding_never_optimised.
+
+(* a 2 x 3 target on a 4 x 3 detector: rows 0..2 are accepted, rows 1..3 (inside the detector, beyond
+   the target) are refused; validated against the detector frame instead they would be accepted *)
+Definition ex_small (r0 r1 : Z) : fconf :=
+  {| fc_ff := FAbs; fc_multi := false;
+     fc_trng := FR2 (Some r0, Some r1) (Some 0, Some 3)%Z;
+     fc_orng := FR3 (None, None) (Some r0, Some r1) (Some 0, Some 3)%Z;
+     fc_drows := 4%Z; fc_dcols := 3%Z; fc_w := WNone;
+     fc_tgts := [ [ [[Some 1; Some 2; Some 3]; [Some 4; Some 5; Some 6]] ] ]%Q; fc_bypass := false |}.
+Definition ex_small_sims : list frame3 :=
+  [ [ [[Some 1; Some 1; Some 1]; [Some 1; Some 1; Some 1]; [Some 1; Some 1; Some 1]; [Some 1; Some 1; Some 1]] ] ]%Q.
+Definition detector_calls : calls :=
+  {| call_single := {| cs_rows := QDet DRow; cs_cols := QDet DCol; cs_times := QAbsent |};
+     call_multi := {| cs_rows := QDet DRow; cs_cols := QDet DCol; cs_times := QDet DTime |} |}.
+
+Example C11_ctor_rejects_exceeding_nonvacuous :
+  ctor_check src_checker src_calls (ex_small 0 2) ex_small_sims = Accept /\
+  target_inside (ex_small 0 2) = true /\
+  spec_fit (ex_small 0 2) ex_small_sims = Some (OVal (15 # 1)) /\
+  ctor_check src_checker src_calls (ex_small 1 3) ex_small_sims = Reject /\
+  target_inside (ex_small 1 3) = false /\
+  spec_fit (ex_small 1 3) ex_small_sims = Some OCtor /\
+  ctor_check src_checker detector_calls (ex_small 1 3) ex_small_sims = Accept.
+Proof. vm_compute. repeat split; reflexivity. Qed.
 
 (* ------------------------------------------------------------------ fitness = declared sum *)
 
@@ -115,7 +164,7 @@ Definition ex_sims : list frame3 := [ [ [[Some 1]]; [[Some 1]] ] ].
 (* multi-readout targets: the declared weights are dropped (value 2 instead of 3 * 2) *)
 Theorem C11_weights_multi_refuted :
   spec_fit (ex_conf true) ex_sims = Some (OVal (6 # 1)) /\
-  fobs_agree true (model_fit src_checker (ex_conf true) ex_sims) (OVal (2 # 1)) = true.
+  fobs_agree true (model_fit src_checker src_calls (ex_conf true) ex_sims) (OVal (2 # 1)) = true.
 Proof. vm_compute. auto. Qed.
 Print Assumptions C11_weights_multi_refuted.
 
@@ -127,7 +176,7 @@ Example C11_fitness_is_sum_nonvacuous :
               fc_tgts := [ [ [[Some 0; Some 1]] ]; [ [[Some 3; None]] ] ]; fc_bypass := false |} in
   let sims := [ [ [[Some 1; Some 3]] ]; [ [[Some 1; Some 7]] ] ] in
   (* 2*(1+4) + 5*(4) = 30; model = specification *)
-  fobs_agree true (model_fit src_checker c sims) (OVal (30 # 1)) = true /\
+  fobs_agree true (model_fit src_checker src_calls c sims) (OVal (30 # 1)) = true /\
   spec_fit c sims = Some (OVal (30 # 1)).
 Proof. vm_compute. auto. Qed.
 
